@@ -30,8 +30,10 @@ if st:
     print("/repo is not clean:", st); sys.exit(2)
 r = subprocess.run(["git", "-C", "/repo", "apply", "--3way", os.path.join(D, "patch.diff")], stdout=subprocess.PIPE, stderr=subprocess.STDOUT)
 if r.returncode != 0:
+    subprocess.run(["git", "-C", "/repo", "reset", "-q"]); subprocess.run(["git", "-C", "/repo", "checkout", "--", "."])
     r = subprocess.run(["git", "-C", "/repo", "apply", os.path.join(D, "patch.diff")], stdout=subprocess.PIPE, stderr=subprocess.STDOUT)
 if r.returncode != 0:
+    subprocess.run(["git", "-C", "/repo", "reset", "-q"]); subprocess.run(["git", "-C", "/repo", "checkout", "--", "."])
     print("patch does not apply:", r.stdout.decode()); sys.exit(2)
 results = meta.setdefault("checks", {})
 env = dict(os.environ); env["VERIF_EVIDENCE_DIR"] = "/verif/.cache/seed-evidence"
